@@ -11,7 +11,7 @@ Variable kk : nat.
 Lemma ss_step_spur s t s' : Rss lims s -> exec P s (LSpur t) = Some s' -> Rss lims s'.
 Proof.
   intros (p0 & st0 & r0 & c0 & l0 & cu0 & om & Ht0 & HOM & Hn & Hpa & Hf & Hok0 & Hreg & Hc0 & Hm1 & Homlt &
-          HownO & Hal & Hq & HG & Hran & Hsub & Hch & HPR) E.
+          HownO & Hal & Hq & HW & HG & Hran & Hsub & Hch & HPR) E.
   unfold exec in E. rewrite Hf, Hn in E.
   destruct (t <? 1 + NS lims) eqn:Elt; cbn [negb] in E; [|discriminate E].
   apply Nat.ltb_lt in Elt. destruct t as [|i].
@@ -45,7 +45,7 @@ Theorem ss_exec_once s : reach P (init_ss lims rs kk) s ->
 Proof.
   intros R. apply Rss_reach in R.
   destruct R as (p0 & st0 & r0 & c0 & l0 & cu0 & om & Ht0 & HOM & Hn & Hpa & Hf & Hok0 & Hreg & Hc0 & Hm1 & Homlt &
-          HownO & Hal & Hq & HG & Hran & Hsub & Hch & HPR).
+          HownO & Hal & Hq & HW & HG & Hran & Hsub & Hch & HPR).
   assert (KEY : forall k, k < 1 + NS lims -> exists n, map snd (filter (fun c => fst c =? k) (subm s)) = seq 0 n).
   { intros k Hk. destruct k as [|i]; [eexists; exact Hch|].
     assert (Hi : i < NS lims) by lia.
@@ -69,5 +69,23 @@ Proof.
       * assert (Hi : i < NS lims) by lia.
         destruct (HPR i Hi) as (pp & stp & rp & cp & Hth & _ & _ & Hjn & _).
         cbn [Nat.add] in Hth. rewrite Hth. cbn. apply Hjn. reflexivity.
+Qed.
+(* no lost wake-up: queued callbacks are always announced or about to be looked at / announced *)
+Theorem ss_no_lost_wakeup s : reach P (init_ss lims rs kk) s -> que s 2 <> [] ->
+  var s 2 <> 0 \/ safe0 (pc (thr s 0)) = true \/ (exists i, i < length lims /\ spend s i).
+Proof.
+  intros R Hq0. apply Rss_reach in R.
+  destruct R as (p0 & st0 & r0 & c0 & l0 & cu0 & om & Ht0 & HOM & Hn & Hpa & Hf & Hok0 & Hreg & Hc0 & Hm1 & Homlt &
+          HownO & Hal & Hq & HW & HG & Hran & Hsub & Hch & HPR).
+  rewrite Ht0. cbn [pc]. exact (HW Hq0).
+Qed.
+
+(* in particular: whenever the loop thread is about to sleep in poll() (pc 7) with an empty pipe while callbacks
+   are queued, some producer is between its push and its pipe write, i.e. the wake-up is still on its way *)
+Corollary ss_poll_not_lost s : reach P (init_ss lims rs kk) s -> que s 2 <> [] -> var s 2 = 0 ->
+  pc (thr s 0) = 7 -> exists i, i < length lims /\ spend s i.
+Proof.
+  intros R Hq0 Hv Hp. destruct (ss_no_lost_wakeup s R Hq0) as [X|[X|X]]; [contradiction| |exact X].
+  rewrite Hp in X. discriminate X.
 Qed.
 End E.
